@@ -62,6 +62,11 @@ func (inst *InstAlloca) Type() types.Type {
 		inst.Typ = types.NewPointer(inst.ElemType)
 		inst.Typ.AddrSpace = inst.AddrSpace
 	}
+	// The address space may have been set after the type was cached.
+	if inst.Typ.AddrSpace != inst.AddrSpace {
+		inst.Typ = types.NewPointer(inst.ElemType)
+		inst.Typ.AddrSpace = inst.AddrSpace
+	}
 	return inst.Typ
 }
 
